@@ -702,8 +702,10 @@ func (w *nodeWorld) exec1(it Item) {
 			}
 			fp.send(rpcIHave(w.topicName(it.a(1)), ids...))
 		}
-	case "iwant": // [idx, k] ask for the k-th known message
-		if fp := w.fake(int(it.a(0))); fp != nil && fp.outAlive() && len(w.sent) > 0 {
+	case "iwant": // [idx, k] ask for the k-th known message (every fourth request: for an ID nobody knows)
+		if fp := w.fake(int(it.a(0))); fp != nil && fp.outAlive() && it.a(1)%4 == 3 {
+			fp.send(rpcIWant(fmt.Sprintf("no-such-message-%d", it.a(1))))
+		} else if fp != nil && fp.outAlive() && len(w.sent) > 0 {
 			ids := w.sentIDs()
 			fp.send(rpcIWant(ids[int(it.a(1))%len(ids)]))
 		}
